@@ -1,6 +1,7 @@
 package c08_hist
 
 import (
+	"encoding/base64"
 	"fmt"
 	"strings"
 
@@ -70,7 +71,9 @@ func (w *World) someID(prefix string) string {
 func (w *World) Adversarial() *Tok {
 	opq := w.PoolOf("opaque-at")
 	jwts := w.PoolOf("jwt-at", "idtok")
-	switch w.R.IntN(13) {
+	switch w.R.IntN(15) {
+	case 12, 13:
+		return w.JWTShaped()
 	case 0, 1:
 		if len(opq) > 0 {
 			return w.Flip(drv.Pick(w.R, opq))
@@ -421,4 +424,36 @@ func (w *World) Lesser(c Cred) Cred {
 		return Cred{Kind: "basic", ID: id}
 	}
 	return Cred{Kind: "post", ID: id, EmptyParam: true}
+}
+
+// non-object JSON payloads (and things that are not JSON at all) for JWT-shaped garbage
+var oddPayloads = []string{"null", "[]", "[1]", "\"x\"", "0", "1e3", "true", "false", "", "nul", "{", "{}", "{\"sub\":null}", "{\"iss\":1}"}
+var jsonBlanks = []string{" ", "\t", "\n", "\r\n", "  "}
+
+// JWTShaped: three dot-separated base64url segments that are no token of anybody - a plausible
+// header (the provider's alg and kid, or none), a payload that is any non-object JSON value, an
+// empty object or no JSON, with and without insignificant white space around it, and a garbage or
+// borrowed signature. The provider has to treat it like any other garbage at every endpoint.
+func (w *World) JWTShaped() *Tok {
+	b64 := base64.RawURLEncoding.EncodeToString
+	header := drv.Pick(w.R, []string{
+		`{"alg":"ES256","kid":"` + w.St.Signing.KID + `"}`, `{"alg":"ES256","kid":"` + w.St.Signing.KID + `","typ":"JWT"}`,
+		`{"alg":"ES256"}`, `{"alg":"none"}`, `{}`})
+	payload := drv.Pick(w.R, oddPayloads)
+	switch w.R.IntN(4) { // insignificant white space before / after / around the value
+	case 0:
+		payload = drv.Pick(w.R, jsonBlanks) + payload
+	case 1:
+		payload = payload + drv.Pick(w.R, jsonBlanks)
+	case 2:
+		payload = drv.Pick(w.R, jsonBlanks) + payload + drv.Pick(w.R, jsonBlanks)
+	}
+	sig := b64([]byte("not-a-signature-not-a-signature-not-a-signature-not-a-signature-"))
+	if jw := w.PoolOf("jwt-at", "idtok"); len(jw) > 0 && w.R.Bool() { // a real signature of another token
+		parts := strings.Split(drv.Pick(w.R, jw).S, ".")
+		if len(parts) == 3 {
+			sig = parts[2]
+		}
+	}
+	return &Tok{S: b64([]byte(header)) + "." + b64([]byte(payload)) + "." + sig, Kind: "jwt-shaped"}
 }
